@@ -1723,4 +1723,29 @@ theorem recordedHint_regular (rowCos colCos base : V3) (sp : Rat) (hsp : 0 < sp)
   · rfl
 
 
+/-- a tiled segmentation written from a SLIDE volume reports a geometry whose plane is the volume's plane 0 -/
+theorem tiled_store_geometry {g : Geom} (hg : Admissible g) :
+    ∃ full, volumeGeometryTiled (storeTiled g).origin (storeTiled g).rowCos (storeTiled g).colCos (storeTiled g).psRow
+        (storeTiled g).psCol (storeTiled g).sbs = .ok full ∧
+      ∀ r c : Int, full.apply 0 r c = g.aff.apply 0 r c := by
+  unfold volumeGeometryTiled storeTiled
+  simp only [defaultSpacing]
+  rw [fromAttributes_ok _ _ _ _ _ _ hg.s1 hg.s2 hg.on.bc]
+  refine ⟨_, rfl, ?_⟩
+  intro r c
+  have := geom_apply_nat g 0 r c
+  simp only [Nat.cast_zero] at this
+  rw [this]
+  unfold Aff.apply
+  generalize normal g.d2 g.d1 = n
+  generalize planePosition g 0 = p
+  obtain ⟨nx, ny, nz⟩ := n
+  obtain ⟨px, py, pz⟩ := p
+  obtain ⟨bx, b_y, bz⟩ := g.d1
+  obtain ⟨cx, cy, cz⟩ := g.d2
+  simp only [add, smul, V3.mk.injEq]
+  push_cast
+  refine ⟨by ring, by ring, by ring⟩
+
+
 end HdVerif.SegGeomLemmas
